@@ -257,13 +257,15 @@ PostN(f, i, o) ==
      [] f = "cxx_ostream_q" -> o.q \in MpqOstreamTexts(i.st, i.w, i.fill, i.n, i.d) /\ o.wq = 0
      [] f = "cxx_istream" ->       \* o.pos: characters consumed, o.next: the character the next get() returns ("" at end of input), o.l*: the standard library reading a long
            LET p == IParse(i.s, i.base, i.skipws) IN
-           p.open \/ (/\ (o.ok = 1) = p.ok /\ o.pos = p.n
+           IF p.open THEN TRUE
+           ELSE      (/\ (o.ok = 1) = p.ok /\ o.pos = p.n
                       /\ (p.ok => o.v = p.v)
                       /\ o.next = (IF p.n < Len(i.s) THEN SubSeq(i.s, p.n + 1, p.n + 1) ELSE "")
                       /\ (IStdComparable(i.s, i.base, p) => o.lok = o.ok /\ o.lpos = o.pos /\ (p.ok => o.lv = p.v)))
      [] f = "cxx_istream_q" ->
            LET p == IParseQ(i.s, i.base, i.skipws) IN
-           p.open \/ (/\ (o.ok = 1) = p.ok /\ o.pos = p.n
+           IF p.open THEN TRUE
+           ELSE      (/\ (o.ok = 1) = p.ok /\ o.pos = p.n
                       /\ (p.ok => o.n = p.num /\ o.d = p.den))
      [] f = "mpn_get_str" ->      \* digit values written through the 62-character alphabet by the harness; leading zeros permitted
            LET A62 == "0123456789ABCDEFGHIJKLMNOPQRSTUVWXYZabcdefghijklmnopqrstuvwxyz" IN
